@@ -714,3 +714,134 @@ def b64_decode(I, args, kwargs, node):
     out = SymStr('bytes', b64d(x))
     I.assume(_blen(out.s) >= 0)
     return out
+
+
+# ---------------------------------------------------------------------------
+# hyperframe parser as h2.frame_buffer uses it (ASSUMED contract, DESIGN 2.5):
+#   Frame.parse_frame_header(9 bytes) -> (frame of one of the 12 classes, length) with length a function of those
+#     9 bytes in 0..2**24-1, or raises InvalidDataError (stream-association violation) / InvalidFrameError;
+#   frame.parse_body(view) fills the body fields within wire ranges (sym_frame) or raises InvalidDataError /
+#     InvalidFrameError / InvalidPaddingError.
+hdr_len = z3.Function('frame_header_length', _B, z3.IntSort())
+hdr_outcome = z3.Function('frame_header_outcome', _B, z3.IntSort())
+
+
+def header_valid_term(I, data):
+    head = I.s_slice(data, None, 9)
+    return hdr_outcome(head.s) == 0
+
+
+def header_length_term(I, data):
+    """The length field announced by the first 9 bytes of `data` (a function of those bytes)."""
+    head = I.s_slice(data, None, 9)
+    t = hdr_len(head.s)
+    I.assume(z3.And(t >= 0, t <= 2 ** 24 - 1))
+    return t
+
+
+@extern_call('hyperframe.frame.Frame.parse_frame_header')
+def parse_frame_header(I, args, kwargs, node):
+    USED_MODELS.add('assumed: hyperframe Frame.parse_frame_header / parse_body output contract (any of 12 classes, wire-range fields; raises InvalidDataError / InvalidFrameError / InvalidPaddingError only)')
+    head = args[0]
+    t = hdr_len(I.to_abs(head))
+    I.assume(z3.And(t >= 0, t <= 2 ** 24 - 1))
+    sel = hdr_outcome(I.to_abs(head))      # which of the three outcomes: a function of the 9 header bytes
+    c = I.choose([sel == 0, sel == 1, z3.And(sel != 0, sel != 1)], 'parse-frame-header', names=['ok', 'invalid-data', 'invalid-frame'])
+    if c == 1:
+        I.raise_builtin('hyperframe.exceptions.InvalidDataError', node=node)
+    if c == 2:
+        I.raise_builtin('hyperframe.exceptions.InvalidFrameError', node=node)
+    names = sorted(FRAME_DEFS)
+    i = I.choose([I.fresh('parsed_class', 'int') == n for n in range(len(names))], 'parsed-frame-class', names=names)
+    f = sym_frame(I, 'frame:' + names[i], 'parsed')
+    I.heap.get(f).fields['body_len'] = t
+    I.heap.get(f).fields['__body_parsed'] = False
+    return (f, t)
+
+
+def frame_parse_body(I, ref, o, args, kwargs, node):
+    sel = I.fresh('parse_body_outcome', 'int')
+    c = I.choose([sel == 0, sel == 1, sel == 2, z3.And(sel != 0, sel != 1, sel != 2)], 'parse-body',
+                 names=['ok', 'invalid-data', 'invalid-frame', 'invalid-padding'])
+    if c == 1:
+        I.raise_builtin('hyperframe.exceptions.InvalidDataError', node=node)
+    if c == 2:
+        I.raise_builtin('hyperframe.exceptions.InvalidFrameError', node=node)
+    if c == 3:
+        I.raise_builtin('hyperframe.exceptions.InvalidPaddingError', node=node)
+    o.fields['__body_parsed'] = True       # fields were created in wire range by sym_frame
+    return None
+
+
+for _n in FRAME_DEFS:
+    if _n != 'SettingsFrame':
+        EXTERN_METHODS[(HF + _n, 'parse_body')] = frame_parse_body
+
+
+@extern_call('builtins.memoryview')
+def bi_memoryview(I, args, kwargs, node):
+    return args[0]
+
+
+# ---------------------------------------------------------------------------
+# FrameBuffer._headers_buffer: the frames of an unfinished header block.  Abstract view (first frame, count,
+# concatenated payloads) -- the only things frame_buffer.py reads: truthiness, [0], append, len, and
+# b''.join(x.data for x in buffer).
+AFL = 'abs-framelist'
+
+
+def sym_framebuf(I, desc, name):
+    e = I.fresh(name + '.empty', 'bool')
+    c = I.choose([e, z3.Not(e)], 'header-block-open', names=['no', 'yes'])
+    if c == 0:
+        return I.heap.alloc(ListObj([]))
+    fp = I.fresh(name + '.first_is_push', 'bool')
+    k = I.choose([fp, z3.Not(fp)], 'block-starts-with', names=['PushPromiseFrame', 'HeadersFrame'])
+    first = sym_frame(I, 'frame:' + ('PushPromiseFrame' if k == 0 else 'HeadersFrame'), name + '.first')
+    I.assume(z3.Not(I.heap.get(I.heap.get(first).fields['flags']).fields['set']['END_HEADERS']))
+    n = I.fresh(name + '.n', 'int')
+    I.assume(n >= 1)
+    return I.heap.alloc(Obj(AFL, {'first': first, 'n': n, 'joined': I.new_abs(name + '.joined')}))
+
+
+def opaque_framebuf(I, name='hb'):
+    """A header-block buffer of unknown content (only its length is observable): for callers that use
+    FrameBuffer.__next__ through its contract."""
+    n = I.fresh(name + '.n', 'int')
+    I.assume(n >= 0)
+    return I.heap.alloc(Obj(AFL, {'first': None, 'n': n, 'joined': I.new_abs(name + '.joined')}))
+
+
+@extern_method(AFL, '__len__')
+def afl_len(I, ref, o, args, kwargs, node):
+    return o.fields['n']
+
+
+@extern_method(AFL, '__bool__')
+def afl_bool(I, ref, o, args, kwargs, node):
+    return True
+
+
+@extern_method(AFL, '__getitem__')
+def afl_getitem(I, ref, o, args, kwargs, node):
+    i = I.int_of(args[0])
+    if isinstance(i, int) and i == 0:
+        return o.fields['first']
+    raise Unsupported('abstract header-frame list index other than 0')
+
+
+@extern_method(AFL, 'append')
+def afl_append(I, ref, o, args, kwargs, node):
+    f = I.heap.get(args[0])
+    o.fields['n'] = o.fields['n'] + 1
+    o.fields['joined'] = I.s_concat(o.fields['joined'], f.fields['data'])
+    return None
+
+
+@extern_method(AFL, '__iter__')
+def afl_iter(I, ref, o, args, kwargs, node):
+    """Iteration is only used as b''.join(x.data for x in buffer): ONE synthetic element carrying the
+    concatenation of all payloads stands for the whole sequence (stated assumption of this model)."""
+    USED_MODELS.add('model: FrameBuffer._headers_buffer as (first frame, count, concatenated payloads); iteration yields one synthetic element whose .data is the concatenation')
+    yield I.heap.alloc(Obj(HF + 'ContinuationFrame', {'data': o.fields['joined'], 'stream_id': I.heap.get(o.fields['first']).fields['stream_id'],
+                                                      'flags': I.heap.get(o.fields['first']).fields['flags'], 'body_len': 0}))
